@@ -74,6 +74,7 @@ enum
     CL_FINE,
     CL_SET_ALLOC_FAIL,
     CL_STRADDLE,
+    CL_STALE_FAILURE,
 };
 
 const VhSpec kSpec = {
@@ -85,7 +86,7 @@ const VhSpec kSpec = {
     { "camera_random", "camera_sin", "camera_empty", "binning_gt1", "binning_rejected", "multibyte_type_odd_width", "shape_clamped",
       "frame_delivered", "two_configurations", "two_runs", "trigger_mode", "stop_while_frame_call_blocked", "triggers_interleaved_with_frames",
       "lockstep_trigger_frame", "frame_call_after_stop", "gap_in_hardware_ids", "pct_schedule", "preemptions", "f32", "failed_frame_call_then_restart", "edge_preemptions",
-      "set_refused_by_allocation_failure_then_retried", "frame_call_pending_across_restart", nullptr },
+      "set_refused_by_allocation_failure_then_retried", "frame_call_pending_across_restart", "frame_call_failed_across_restart", nullptr },
     { "C17 non-trivial: >=1 frame fetched AND (binning > 1 or a multi-byte type with an odd width), or >=2 accepted configurations on one camera",
       "C18 non-trivial: >=2 runs on one camera, or a stop issued while a frame call was blocked, or >=3 triggers interleaved with frame calls",
       nullptr },
@@ -130,6 +131,8 @@ struct Ctx
     std::vector<Run> runs;
     int started_runs = 0;
     bool a_blocked_in_frame = false;
+    size_t a_runs_at_call = 0;     // number of runs begun when caller A entered its current frame call
+    bool a_stale_failure = false;  // a frame call of A that began before the latest start has failed (see c18_fail)
     int a_frames_in_run = 0, b_triggers_in_run = 0;
     int frames_total = 0;
     size_t a_next = 0;      // index of the frame op caller A is at
@@ -341,6 +344,28 @@ do_set(Ctx& x, const VhTok& t)
     check_get(x, "after set");
 }
 
+// Known finding (DESIGN.md 8.1a): a frame call that begins while another thread's stop is in progress fails
+// inside the device, and the HAL's failure path (camera.c: camera_stop(self); self->state = AwaitingConfiguration)
+// then runs unsynchronised with the other thread.  If that thread has restarted the camera meanwhile, the
+// stale failure stops the new run or overwrites its Running state, so that the next stop is skipped.  Every
+// consequence is reported under one signature, and only in cases where such a call is on record: a failed
+// call of A that began before the latest start, or one that is in flight and not waiting for a frame.
+static bool
+stale_failure_overlaps_restart(Ctx& x)
+{
+    if (x.a_stale_failure)
+        return true;
+    return x.fa >= 0 && x.a_blocked_in_frame && x.a_runs_at_call != x.runs.size() && vsim::info(x.fa).st != vsim::BLK_COND;
+}
+#define C18_FAIL(x, oracle, discr, ...)                                                                                                                        \
+    do {                                                                                                                                                       \
+        if (stale_failure_overlaps_restart(x))                                                                                                                 \
+            (x).c.fail("C18", "after-stale-frame-failure", "overlapped-restart",                                                                               \
+                       "a frame call that began during the previous stop failed after the camera was started again: the HAL's failure path acted on the new run (%s)", oracle); \
+        else                                                                                                                                                   \
+            (x).c.fail("C18", oracle, discr, __VA_ARGS__);                                                                                                     \
+    } while (0)
+
 void
 do_start(Ctx& x)
 {
@@ -364,7 +389,7 @@ do_start(Ctx& x)
     x.running = true;
     x.a_frames_in_run = x.b_triggers_in_run = 0;
     if (camera_start(x.cam) != Device_Ok) {
-        x.c.fail("C18", "start-failed", "err", "camera_start failed");
+        C18_FAIL(x, "start-failed", "err", "camera_start failed");
         return;
     }
     x.started_runs++;
@@ -393,12 +418,19 @@ do_frame(Ctx& x, char who)
     size_t run_idx = x.runs.empty() ? 0 : x.runs.size() - 1;
     size_t runs_at_call = x.runs.size();
     bool was_running = x.running;
-    if (who == 'A')
+    if (who == 'A') {
         x.a_blocked_in_frame = true;
+        x.a_runs_at_call = runs_at_call;
+    }
     int trig_before = x.runs.empty() ? 0 : x.runs[run_idx].triggers;
     DeviceStatusCode r = camera_get_frame(x.cam, buf, &nbytes, &info);
-    if (who == 'A')
+    if (who == 'A') {
         x.a_blocked_in_frame = false;
+        if (r != Device_Ok && x.runs.size() != runs_at_call) {
+            x.a_stale_failure = true;
+            x.c.cls(CL_STALE_FAILURE);
+        }
+    }
     bool delivered = r == Device_Ok && info.hardware_frame_id != SENT;
     x.c.trace("%c: FRAME -> %s%s id=%lld", who, r == Device_Ok ? "Ok" : "Err", delivered ? " delivered" : " (no frame)", delivered ? (long long)info.hardware_frame_id : -1LL);
     if (!was_running && !x.running)
@@ -431,30 +463,30 @@ do_frame(Ctx& x, char who)
             Run& run = x.runs[run_idx];
             int64_t id = (int64_t)info.hardware_frame_id;
             if (id <= run.last_id)
-                x.c.fail("C18", "id-not-increasing", id == run.last_id ? "repeat" : "backwards", "run %zu: frame id %lld delivered after id %lld", run_idx, (long long)id,
+                C18_FAIL(x, "id-not-increasing", id == run.last_id ? "repeat" : "backwards", "run %zu: frame id %lld delivered after id %lld", run_idx, (long long)id,
                          (long long)run.last_id);
             else if (id > run.last_id + 1)
                 x.c.cls(CL_GAP_IN_IDS);
             if (!x.c.ended && run.deliveries == 0) {
                 // the count restarts with each start
                 if (id < 0)
-                    x.c.fail("C18", "first-id", "negative", "run %zu: first delivered id is %lld", run_idx, (long long)id);
+                    C18_FAIL(x, "first-id", "negative", "run %zu: first delivered id is %lld", run_idx, (long long)id);
                 else if (run.trigger_mode) {
                     if (id >= run.triggers)
-                        x.c.fail("C18", "first-id", "beyond-triggers", "run %zu: first delivered id is %lld but only %d triggers were issued in this run", run_idx,
+                        C18_FAIL(x, "first-id", "beyond-triggers", "run %zu: first delivered id is %lld but only %d triggers were issued in this run", run_idx,
                                  (long long)id, run.triggers);
                 } else if (run.exposure_ms >= 2.0f) {
                     double elapsed_ms = (double)(vsim::now_ns() - run.start_ns) * 1e-6;
                     double bound = elapsed_ms / run.exposure_ms + 2.0;
                     if ((double)id > bound)
-                        x.c.fail("C18", "first-id", "not-restarted", "run %zu: first delivered id is %lld after %.3f ms at %.1f ms exposure: the count did not restart with start",
+                        C18_FAIL(x, "first-id", "not-restarted", "run %zu: first delivered id is %lld after %.3f ms at %.1f ms exposure: the count did not restart with start",
                                  run_idx, (long long)id, elapsed_ms, run.exposure_ms);
                 }
             }
             run.last_id = id;
             run.deliveries++;
             if (!x.c.ended && run.trigger_mode && run.deliveries > run.triggers)
-                x.c.fail("C18", "more-frames-than-triggers", run.triggers == 0 ? "before-first-trigger" : "excess",
+                C18_FAIL(x, "more-frames-than-triggers", run.triggers == 0 ? "before-first-trigger" : "excess",
                          "run %zu: %d frames delivered but only %d triggers issued (at the start of this frame call: %d)", run_idx, run.deliveries, run.triggers, trig_before);
         }
     }
@@ -547,10 +579,10 @@ actor_b(void*)
                     if (pure && run2.deliveries == before + 1) {
                         // every trigger so far was followed by exactly one frame call: ids are 0,1,2,...
                         if (run2.last_id != run2.lockstep_count)
-                            x.c.fail("C18", "lockstep-id", "mismatch", "trigger #%d of this run followed by one frame call delivered id %lld (expected %d)",
+                            C18_FAIL(x, "lockstep-id", "mismatch", "trigger #%d of this run followed by one frame call delivered id %lld (expected %d)",
                                      run2.lockstep_count + 1, (long long)run2.last_id, run2.lockstep_count);
                     } else if (pure && run2.deliveries == before && x.running)
-                        x.c.fail("C18", "lockstep-no-frame", "missing", "a trigger followed by a frame call delivered no frame while the camera was running");
+                        C18_FAIL(x, "lockstep-no-frame", "missing", "a trigger followed by a frame call delivered no frame while the camera was running");
                     run2.lockstep_count++;
                 } else if (x.running && !x.runs.empty()) {
                     x.runs.back().pure_lockstep = false;
@@ -591,10 +623,19 @@ actor_b(void*)
             case K_SLEEP: {
                 struct clock c;
                 clock_init(&c);
-                // relative to the exposure: a camera with exposure 0 spins, and virtual time then only
-                // creeps forward with its clock readings
-                float ms = 0.2f + (float)(op.t.a % 9) * x.model.exposure_time_us * 1e-3f;
-                clock_sleep_ms(&c, ms > 40.f ? 40.f : ms);
+                // relative to the exposure: a camera whose exposure is 1 ms or less spins (clock_sleep_ms only
+                // sleeps for more than a millisecond), and virtual time then only creeps forward with its clock
+                // readings, a few microseconds per rendered frame: a wait measured in milliseconds would cost
+                // thousands of rendered images
+                const float e_ms = x.model.exposure_time_us * 1e-3f;
+                if (e_ms > 1.0f) {
+                    float ms = 0.2f + (float)(op.t.a % 9) * e_ms;
+                    clock_sleep_ms(&c, ms > 40.f ? 40.f : ms);
+                } else {
+                    // let the spinning camera take a few turns instead
+                    for (int i = 0, n = 1 + 4 * (op.t.a % 9); i < n && !x.c.ended; ++i)
+                        vsim::point(0);
+                }
                 break;
             }
             case K_GET: check_get(x, "GET"); break;
@@ -764,19 +805,19 @@ vh_run(const VhTok* tape, size_t n, VhReport* rep)
         if (!x.c.ended) {
             if (rr == vsim::RUN_DEADLOCK || rr == vsim::RUN_QUIET) {
                 const vsim::Info& bi = vsim::info(blocked >= 0 ? blocked : 0);
-                x.c.fail("C18", "deadlock", x.doneB ? "frame-call-never-returns" : "stop-or-caller-blocked",
+                C18_FAIL(x, "deadlock", x.doneB ? "frame-call-never-returns" : "stop-or-caller-blocked",
                          "nothing can run any more: caller A %s, caller B %s; fiber '%s' is %s", x.doneA ? "finished" : "NOT finished",
                          x.doneB ? "finished" : "NOT finished", bi.name, vsim::state_name(bi.st));
             } else if (rr == vsim::RUN_STEPLIMIT)
                 x.c.trace("(step limit reached: inconclusive)");
             else if (vsim::error())
-                x.c.fail("C18", "platform-misuse", "vsim", "%s", vsim::error());
+                C18_FAIL(x, "platform-misuse", "vsim", "%s", vsim::error());
         }
         if (!x.c.ended && rr == vsim::RUN_DONE) {
             // every thread the camera created must be gone after stop
             for (int f = 0; f < vsim::nfibers(); ++f)
                 if (f != x.fa && f != x.fb && vsim::info(f).st != vsim::DONE && !x.c.ended)
-                    x.c.fail("C18", "streamer-alive-after-stop", vsim::state_name(vsim::info(f).st), "a camera thread is still %s after stop returned",
+                    C18_FAIL(x, "streamer-alive-after-stop", vsim::state_name(vsim::info(f).st), "a camera thread is still %s after stop returned",
                              vsim::state_name(vsim::info(f).st));
             if (!x.c.ended) {
                 x.c.trace("CLOSE");
